@@ -303,11 +303,17 @@ def c04_pred(case, trace):
     nf = first_fault_index(ops)
     nxt = 0
     prev = None
+    received = set()
     for k, sn in enumerate(snaps[:nf]):
         if sn.bad or sn.err:
             return "op %d: %s" % (k, sn.bad or sn.err)
         ds = [(int(e[1:].split("/")[0]), int(e.split(">")[1])) for e in sn.events if e[0] == "D"]
         op = ops[k]
+        # (c) a worker that has never been given a connection is not saturated: it is eligible, from start-up on
+        received.update(g for _, g in ds)
+        for g in range(min(W, len(sn.bits))):
+            if g not in received and sn.bits[g] != "1":
+                return "op %d (%s): worker %d is marked unavailable although no connection was ever dispatched to it" % (k, op, g)
         if ds and prev is not None or ds:
             counts = {w["g"]: in_progress(w) for w in (prev.workers if prev else [])} if prev else {g: 0 for g in range(W)}
             flags = {g: (prev.bits[g] == "1") for g in range(W)} if prev else {g: True for g in range(W)}
